@@ -1,5 +1,8 @@
 import Secp.Proofs.DecodeRT
 import Secp.Proofs.DecodeTies
+import Secp.Proofs.ElementApiTiesConstr
+import Secp.Proofs.ElementCodecTies
+import Secp.Proofs.BytesTies
 /-!
 # C04 — element encodings are canonical SEC1 and round-trip through Decode
 
@@ -49,6 +52,20 @@ theorem encoders_tied (e : Pt L4) :
     GenDecode.encodeUncompressed DecodeTies.limbBytes Hand.limbOps e = Hand.ElementL.encodeUncompressed e ∧
     GenDecode.xCoordinate DecodeTies.limbBytes Hand.limbOps e = Hand.ElementL.xCoordinate e :=
   ⟨DecodeTies.encode_tie e, DecodeTies.encodeUncompressed_tie e, DecodeTies.xCoordinate_tie e⟩
+
+/-- the wrappers `Hex` and `MarshalBinary`, regenerated on every run, are the regenerated `Encode` (hex-encoded, resp. with a
+nil error); and the serialiser the encoders are parameterised by is the `Bytes` regenerated from `internal/field`, which
+never panics -/
+theorem encode_wrappers_tied (e x : Pt L4) (a : L4) :
+    GenElementCodec.element_hex DecodeTies.limbBytes Hand.limbOps e = some (Spec.toHex (Hand.ElementL.encode e)) ∧
+    GenElementCodec.element_marshalBinary DecodeTies.limbBytes Hand.limbOps e = some (Hand.ElementL.encode e, none) ∧
+    GenFieldBytes.element_bytes a = some (DecodeTies.limbBytes.bytes a) :=
+  ⟨ElementCodecTies.hex_tie e, ElementCodecTies.marshal_tie e, BytesTies.fp_bytes a⟩
+
+/-- `Base()` as regenerated from `element.go` on this run is the model's base point, a valid element whose encoding is the
+SEC1 generator -/
+theorem base_regenerated : GenElementAPI.base Hand.limbOps = Hand.ElementL.base ∧ Valid (GenElementAPI.base Hand.limbOps) := by
+  rw [ElementApiTies.base_tie]; exact ⟨rfl, base_valid⟩
 
 example : Valid Hand.ElementL.base := base_valid
 example : Valid (Hand.Element.identity Hand.limbOps) := identity_valid limbLawful
